@@ -144,6 +144,16 @@ impl Diagnostics {
         self.0.extend(other.0);
     }
 
+    /// Removes the scope from every diagnostic this contains, so that no 'allow' attributes are looked up for them.
+    ///
+    /// This is for diagnostics that were reported while parsing a file that turned out to contain a syntax error:
+    /// their scopes name elements which were parsed, but whose enclosing definitions never came into existence.
+    pub(crate) fn clear_scopes(&mut self) {
+        for diagnostic in &mut self.0 {
+            diagnostic.scope = None;
+        }
+    }
+
     /// Returns true if this contains any diagnostics that are errors.
     pub fn has_errors(&self) -> bool {
         let mut diagnostics = self.0.iter();
